@@ -455,7 +455,7 @@ Definition authopt_case (a o : list value) : verdict :=
 
 Open Scope string_scope.
 Definition glue_C13 (k : string) (a o : list value) : option verdict :=
-  if is k "srv" || is k "srv.probe" || is k "srv.keyed" || is k "srv.par" || is k "srv.dual" || is k "srv.fwdnots" || is k "srv.fwdhbh" then Some (srv_case false false a o)
+  if is k "srv" || is k "srv.probe" || is k "srv.keyed" || is k "srv.par" || is k "srv.dual" || is k "srv.fwdnots" || is k "srv.fwdhbh" || is k "srv.tailmac" then Some (srv_case false false a o)
   else if is k "srv.strict" then Some (srv_case true false a o)
   else if is k "srv.scmpauth" then Some (srv_case false true a o)
   else if is k "svc.spao" then Some (svc_case a o)
@@ -464,7 +464,7 @@ Definition glue_C13 (k : string) (a o : list value) : option verdict :=
   else if is k "scion.authopt" then Some (authopt_case a o)
   else if is k "cli.keyed" then Some (cli_keyed_case false a o)
   else if is k "cli.strict" then Some (cli_keyed_case true a o)
-  else if is k "cli" || is k "cli.probe" then Some (cli_case a o)
+  else if is k "cli" || is k "cli.probe" || is k "cli.tailmac" then Some (cli_case a o)
   else None.
 
 Definition run_case (k : string) (a o : list value) : verdict := first_some [glue_C13] k a o.
